@@ -72,13 +72,14 @@ def rand_index(rng, shape, allow_none=True, allow_int=True, neg_step=True):
 class Gen:
     """Grows programs; keeps (prog, numpy value) pairs in a pool for sharing."""
 
-    def __init__(self, rng, max_dim=8, max_rank=3, ops=None, sources=None):
+    def __init__(self, rng, max_dim=8, max_rank=3, ops=None, sources=None, unique=False):
         self.rng = rng
         self.max_dim = max_dim
         self.max_rank = max_rank
         self.pool = []
         self.sources = sources if sources is not None else []   # list of (ndarray, chunks)
         self.ops = ops
+        self.unique = unique   # position-coded, pairwise distinct source values
         # non-pointwise block functions (reverse, plus_blocksum) are exercised by the corpus only: slicing
         # through them is known finding F2 and would drown every other signal
         self.mb_funcs = ["double", "info"]
@@ -94,6 +95,8 @@ class Gen:
         shape = tuple(rng.choice([0, 1, 2, 3, 4, 5, 6, self.max_dim][1 if rng.random() < 0.93 else 0:]) for _ in range(rank))
         if r < 0.8:
             data = (np.arange(int(np.prod(shape)), dtype="int64").reshape(shape) * 7 + rng.randint(0, 5)) % 23 - 5
+            if self.unique:
+                data = np.arange(int(np.prod(shape)), dtype="int64").reshape(shape) + 1000 * (len(self.sources) + 1)
             chunks = tuple(rand_chunks_for(rng, n) for n in shape)
             self.sources.append((data, chunks))
             return ("src", len(self.sources) - 1), data
@@ -643,10 +646,10 @@ def eval_np(prog, sources, memo=None):
     return out
 
 
-def gen_programs(rng, n, depth_choices=(1, 2, 3, 4, 5, 6), ops=None, max_dim=8):
+def gen_programs(rng, n, depth_choices=(1, 2, 3, 4, 5, 6), ops=None, max_dim=8, unique=False):
     """n programs, each with its own sources; yields (prog, sources, want)"""
     for _ in range(n):
-        g = Gen(rng, max_dim=max_dim, ops=ops, sources=[])
+        g = Gen(rng, max_dim=max_dim, ops=ops, sources=[], unique=unique)
         p, v = g.program(rng.choice(depth_choices))
         yield p, g.sources, v
 
